@@ -389,6 +389,29 @@ Definition set_item (c i v : val) : res val :=
                              | None => Exc "IndexError" end
         | _, _ => Stuck "set_item: row value" end
       else Stuck "set_item"
+  | VArr rows, VTuple [VObj c1 f1; VObj c2 f2] =>            (* m[r0:r1, c0:c1] = block  (same shape) *)
+      match slice_bounds (VObj c1 f1) (length rows), seq_payload v with
+      | Some (r0, r1), Some vrows =>
+          if Nat.eqb (length vrows) (r1 - r0) then
+            (fix go (rows : list val) (i : nat) (vrows : list val) : res val :=
+               match rows with
+               | [] => Ok (VArr [])
+               | r :: t =>
+                   if (Nat.leb r0 i && Nat.ltb i r1)%bool then
+                     match vrows, seq_payload r with
+                     | vr :: vt, Some l =>
+                         match slice_bounds (VObj c2 f2) (length l), seq_payload vr with
+                         | Some (c0, c1), Some vs =>
+                             if Nat.eqb (length vs) (c1 - c0) then
+                               do rest <- go t (S i) vt;
+                               match rest with VArr rs => Ok (VArr (retag r (firstn c0 l ++ vs ++ skipn c1 l)%list :: rs)) | _ => Stuck "block set" end
+                             else Exc "ValueError"
+                         | _, _ => Stuck "set_item: block columns" end
+                     | _, _ => Stuck "set_item: block rows" end
+                   else do rest <- go t (S i) vrows; match rest with VArr rs => Ok (VArr (r :: rs)) | _ => Stuck "block set" end
+               end) rows 0%nat vrows
+          else Exc "ValueError"
+      | _, _ => Stuck "set_item: block" end
   | VArr l, VTuple ((_ :: _ :: _ :: _) as ix) => match all_ints ix with Some zs => nd_set (VArr l) zs v | None => Stuck "set_item" end   (* rank >= 3 *)
   | VArr l, VObj _ _ =>                                        (* a[lo:hi] = values (same length) or a scalar (broadcast) *)
       match slice_bounds i (length l) with
@@ -506,6 +529,22 @@ Definition builtin (name : string) (args : list val) (kws : list (string * val))
   | "sum" => Some (match args with [a] => do l <- as_list a; vsum_l l w | _ => Exc "TypeError" end)
   | "np.zeros_like" => Some (pure_ (match args with [a] => do l <- as_list a; Ok (VArr (map (const_like (VNum (Fin 0))) l)) | _ => Exc "TypeError" end) w)
   | "np.ones_like" => Some (pure_ (match args with [a] => do l <- as_list a; Ok (VArr (map (const_like (VNum (Fin 1))) l)) | _ => Exc "TypeError" end) w)
+  | "np.nanmean" => Some (match args with                     (* entries are finite reals in this model (no NaN): nanmean = mean *)
+                      | [a] => do l <- as_list a;
+                               match field_get "axis" kws with
+                               | Some (VInt 0) =>
+                                   do t <- np_transpose (VArr l);
+                                   match t with
+                                   | VArr cols => (fix go (cols : list val) (w : world) : res (val * world) :=
+                                                     match cols with
+                                                     | [] => Ok (VArr [], w)
+                                                     | c :: r => do cl <- as_list c; do mw <- np_mean cl w; do rw <- go r (snd mw);
+                                                                 match fst rw with VArr ms => Ok (VArr (fst mw :: ms), snd rw) | _ => Stuck "np.nanmean axis" end
+                                                     end) cols w
+                                   | _ => Stuck "np.nanmean axis" end
+                               | Some _ => Stuck "np.nanmean: axis"
+                               | None => np_mean (flatten2 l) w end
+                      | _ => Stuck "np.nanmean: arity" end)
   | "np.mean" => Some (match args with
                       | [a] => do l <- as_list a;
                                match field_get "axis" kws with
